@@ -17,6 +17,43 @@ fn main() {
     std::panic::set_hook(Box::new(|_| {}));
     match args[1].as_str() {
         "arith" => arith::serve(),
+        "pareq" => {
+            // C19: par_eq must agree with == also for values whose PartialEq is not reflexive (NaN), on the SAME
+            // map object, on a clone and on an independently built equal map, for several pool sizes
+            use rayon::prelude::*;
+            let mut bad = 0usize;
+            let mut cases = 0usize;
+            for n in [0u64, 1, 5, 40] {
+                for with_nan in [false, true] {
+                    let mut m: hashbrown::HashMap<u64, f64> = hashbrown::HashMap::new();
+                    for k in 0..n {
+                        m.insert(k, k as f64);
+                    }
+                    if with_nan && n > 0 {
+                        m.insert(n / 2, f64::NAN);
+                    }
+                    let c = m.clone();
+                    let mut other: hashbrown::HashMap<u64, f64> = hashbrown::HashMap::with_capacity(200);
+                    for (k, v) in m.iter() {
+                        other.insert(*k, *v);
+                    }
+                    for threads in [1usize, 2, 8] {
+                        let pool = rayon::ThreadPoolBuilder::new().num_threads(threads).build().unwrap();
+                        for (what, a, b) in [("the same object", &m, &m), ("a clone", &m, &c), ("an equal map built separately", &m, &other), ("clone vs original", &c, &m)] {
+                            cases += 1;
+                            let seq = a == b;
+                            let par = pool.install(|| a.par_eq(b));
+                            if seq != par {
+                                bad += 1;
+                                println!("PAREQ par_eq = {} but == is {} for a map of {} entries{} compared with {} ({} threads)", par, seq, a.len(), if with_nan { " holding a NaN value" } else { "" }, what, threads);
+                            }
+                        }
+                    }
+                }
+            }
+            let _ = ParallelIterator::count((0..1).into_par_iter());
+            println!("PAREQSTAT cases={} bad={}", cases, bad);
+        }
         "zst" => {
             // C15 for zero-sized elements.  HashTable<()> with n entries inserted under the hashes
             // 1..=n (distinct tags): a request (hash h, closure true) resolves to the entry
@@ -134,6 +171,7 @@ fn main() {
                     "table-18" => tabledrv::run_table::<tabledrv::T18>(&body, &mut out),
                     "table-zst" => tabledrv::run_table::<tabledrv::Tz>(&body, &mut out),
                     "table-zst64" => tabledrv::run_table::<tabledrv::Tz64>(&body, &mut out),
+                    "table-zstd" => tabledrv::run_table::<tabledrv::Tzd>(&body, &mut out),
                     k => panic!("unknown kind {}", k),
                 }
                 {
